@@ -223,14 +223,19 @@ func (r *Files) FindDescriptorByName(name protoreflect.FullName) (protoreflect.D
 	if r == nil {
 		return nil, NotFound
 	}
+	unlock := func() {}
 	if r == GlobalFiles {
 		globalMutex.RLock()
-		defer globalMutex.RUnlock()
+		unlock = globalMutex.RUnlock
 	}
 	prefix := name
 	suffix := nameSuffix("")
 	for prefix != "" {
 		if d, ok := r.descsByName[prefix]; ok {
+			// Examining the declarations nested in d may lazily initialize
+			// its file, which recursively examines the registry,
+			// so release the lock first.
+			unlock()
 			switch d := d.(type) {
 			case protoreflect.EnumDescriptor:
 				if d.FullName() == name {
@@ -264,6 +269,7 @@ func (r *Files) FindDescriptorByName(name protoreflect.FullName) (protoreflect.D
 		prefix = prefix.Parent()
 		suffix = nameSuffix(name[len(prefix)+len("."):])
 	}
+	unlock()
 	return nil, NotFound
 }
 
